@@ -615,3 +615,26 @@ def check_mean_divisor(model, R, P):
                 and [norm(c) for c in comp[0].generators[0].ifs] == ['i in axis']
             why = 'the divisor must be the product of the operand extents over the reduced axes (got %s)' % t[:80]
     R.ob(P + '.REDUCE', f.qualname, 'divisor of mean_backward', ok, why, f.loc)
+
+
+def check_window_axis(model, R, P):
+    """unfold_dim: sliding_window_view appends the window axis LAST (moved there from `dimension`); the backward brings each window block back
+    with moveaxis(block, -1, dimension) - a swap of the two axes is only equal when `dimension` is one of the last two"""
+    fq, bq = 'synapgrad.cpu_ops.unfold_dim_forward', 'synapgrad.cpu_ops.unfold_dim_backward'
+    fk, bk = model.func(fq), model.func(bq)
+    swv = [c for c in ast.walk(fk.node) if isinstance(c, ast.Call) and norm(c.func).endswith('sliding_window_view')]
+    ok_f = len(swv) == 1 and any(k.arg == 'axis' and norm(k.value) == 'dimension' for k in swv[0].keywords)
+    R.ob(P + '.PERM', fq, norm(swv[0])[:90] if swv else 'no sliding_window_view', ok_f, 'windows are taken along `dimension` (NumPy appends the window axis last)', fk.loc)
+    moves = [c for c in ast.walk(bk.node) if isinstance(c, ast.Call) and model.resolve(bk.mod, c.func) in ('numpy.moveaxis', 'numpy.swapaxes', 'numpy.transpose', 'numpy.rollaxis')]
+    meth = [c for c in ast.walk(bk.node) if isinstance(c, ast.Call) and isinstance(c.func, ast.Attribute) and c.func.attr in ('swapaxes', 'transpose') and not norm(c.func).startswith('np.')]
+    ok = len(moves) == 1 and not meth and model.resolve(bk.mod, moves[0].func) == 'numpy.moveaxis'
+    if ok:
+        sig = ('a', 'source', 'destination')
+        b = {}
+        for i, a in enumerate(moves[0].args):
+            b[sig[i]] = a
+        for k in moves[0].keywords:
+            b[k.arg] = k.value
+        ok = norm(b.get('source')) == '-1' and norm(b.get('destination')) == 'dimension' and bk.pos_params[0] in names_in(b.get('a'))
+    R.ob(P + '.PERM', bq, norm(moves[0])[:90] if moves else 'no axis move', ok,
+         'each window block must be realigned with moveaxis(block, -1, dimension): the inverse of "window axis appended last"; swapaxes also moves the other trailing axes unless dimension >= ndim - 2', bk.loc)
